@@ -18,6 +18,12 @@ NumPy/SciPy numerics are an external oracle.  For every generated network the ha
    `GATES`).  Float vectors never cross the protocol: annihilation / positivity of the numeric
    bases and witnesses is tested here with a stated tolerance and counted.
 
+Besides freshly built networks the harness runs *sessions*: one store object is analysed, edited in
+place through the public hypergraph API, and analysed again (every entry point, random query order,
+repeated queries, a reused NetworkX view object).  The specification side is recomputed from the store
+dump of each state, so it cannot share hidden state with the implementation.  The row / column order of
+S is gated against the model (`buildS_orders`); see `ctx.assumptions` for how a divergence is classified.
+
 The modelled decision logic (`stoich.logic`) is run on the observed oracle outcomes
 (kernel sizes, sign-definite columns, LP status) and its agreement with the implementation is
 recorded in the counters (not gated: `None` versus `False` is not fixed by the property).
@@ -58,7 +64,9 @@ EPS = 1e-8          # the implementation's default margin
 TOL = 1e-9          # tolerance of the numeric annihilation / witness tests (relative to the vector norm)
 
 GATES = ("S entries = produced - consumed (rows by returned species label, columns as a multiset with their rule label), for the store and for "
-         "its exported bipartite view; "
+         "its exported bipartite view (and for NetworkX views made with non-default options); (species, rule labels, S) of build_S equal the "
+         "model's INCLUDING the row / column order; every returned kernel basis / witness also annihilates the store's own matrix taken in the "
+         "store's edge order; "
          "S = S_plus - S_minus with S_minus/S_plus the consumed/produced counts; S equals the store's incidence_matrix up to "
          "column order; stoichiometric_rank and summary.rank = certified rank; kernel bases (left/right_nullspace, "
          "left_right_kernels, find_p/t_semiflows) have n_species-rank / n_reactions-rank columns, are numerically independent and "
@@ -202,16 +210,52 @@ def qm(M):
 
 
 # =============================================================== networks
+def _sides(rx):
+    """The two sides of a generated reaction in the input form asked for (`form`): every form add_rxn accepts."""
+    from synkit.CRN.Hypergraph.rxn import RXNSide
+
+    form = rx.get("form") or "dict"
+    out = []
+    for side in (rx["r"], rx["p"]):
+        if form == "list":
+            out.append([s for s, c in side for _ in range(c)])
+        elif form == "pairs":
+            out.append([(s, c) for s, c in side])
+        elif form == "side":
+            out.append(RXNSide.from_any({s: c for s, c in side}))
+        else:
+            out.append({s: c for s, c in side})
+    return out
+
+
+def _as_string(rx):
+    import re
+
+    if not all(re.fullmatch(r"[A-Za-z][A-Za-z0-9_]*", s) for s, _ in rx["r"] + rx["p"]):
+        return None
+    fmt = lambda side: " + ".join((f"{c} {s}" if c != 1 else s) for s, c in side)
+    return f"{fmt(rx['r'])} >> {fmt(rx['p'])}"
+
+
+def add_one(H, rx):
+    line = _as_string(rx) if rx.get("form") == "str" and rx.get("eid") is None else None
+    if line is not None:
+        return H.add_rxn_from_str(line, rule=rx.get("rule"), parse_rule_from_suffix=False)
+    r, p = _sides(rx)
+    try:
+        return H.add_rxn(r, p, rule=rx.get("rule"), edge_id=rx.get("eid"))
+    except KeyError:   # explicit id already taken by a generated one: let the store choose
+        r, p = _sides(rx)
+        return H.add_rxn(r, p, rule=rx.get("rule"))
+
+
 def build_net(net):
-    """net = {"rxns": [{"r": [[s,c]..], "p": [[s,c]..], "rule": str|None, "eid": str|None}], "isolated": [s..]}"""
+    """net = {"rxns": [{"r": [[s,c]..], "p": [[s,c]..], "rule": str|None, "eid": str|None, "form": ..}], "isolated": [s..]}"""
     from synkit.CRN.Hypergraph.hypergraph import CRNHyperGraph
 
     H = CRNHyperGraph()
     for rx in net["rxns"]:
-        try:
-            H.add_rxn({s: c for s, c in rx["r"]}, {s: c for s, c in rx["p"]}, rule=rx.get("rule"), edge_id=rx.get("eid"))
-        except KeyError:   # explicit id already taken by a generated one: let the store choose
-            H.add_rxn({s: c for s, c in rx["r"]}, {s: c for s, c in rx["p"]}, rule=rx.get("rule"))
+        add_one(H, rx)
     for s in net.get("isolated", []):
         if s in H.species:
             continue
@@ -292,22 +336,157 @@ def basis_report(B, S, side, nrows):
     return rep
 
 
-def observe(net):
-    """Run the implementation on one network.  Everything returned is JSON-able and float-free
-    except the recorded residual magnitudes (which stay in Python)."""
+BLOCKS = ("S", "Smp", "view", "inc", "same", "rank", "left", "right", "lrk", "psf", "tsf", "laws",
+          "is_cons", "compute", "is_consi", "summary")
+
+# ways of handing the same network over as a NetworkX graph (kwargs of hypergraph_to_bipartite + node attributes
+# removed afterwards: the code classifies a node by `kind` OR by `bipartite`, either alone must do)
+VIEW_VARIANTS = [
+    {"kw": {"integer_ids": True}, "drop": None},
+    {"kw": {"integer_ids": True, "include_edge_id_attr": True}, "drop": "kind"},
+    {"kw": {"integer_ids": True}, "drop": "bipartite"},
+    {"kw": {}, "drop": "kind"},
+    {"kw": {}, "drop": "bipartite"},
+    {"kw": {"species_prefix": None}, "drop": None},
+    {"kw": {"species_prefix": "Z", "reaction_prefix": "A:"}, "drop": None},
+    {"kw": {"include_isolated_species": False}, "drop": None},
+    {"kw": {"include_isolated_species": False, "integer_ids": True}, "drop": None},
+    {"kw": {"include_role": True, "include_stoich": True, "include_edge_id_attr": True}, "drop": None},
+]
+
+
+def make_view(H, variant, reuse=None):
+    """The network as a bipartite NetworkX graph.  `reuse`: an existing DiGraph object that is emptied and
+    refilled (same Python object, new content) instead of handing over a new one."""
+    from synkit.CRN.Hypergraph.conversion import hypergraph_to_bipartite
+
+    G = hypergraph_to_bipartite(H, **variant["kw"])
+    if variant["drop"]:
+        for _, d in G.nodes(data=True):
+            d.pop(variant["drop"], None)
+    if reuse is None:
+        return G
+    reuse.clear()
+    reuse.add_nodes_from(G.nodes(data=True))
+    reuse.add_edges_from(G.edges(data=True))
+    return reuse
+
+
+def store_matrix(dump, species):
+    """produced - consumed read off the store, rows in the order of `species` (labels as the implementation
+    returned them), columns in the store's edge order as the model arranges it (by id, then stably by rule:
+    for equally labelled reactions this is the column order of the store's own incidence_matrix)."""
+    import numpy as np
+
+    sp, cols = spec_S(dump)
+    if sorted(species) != sp or not cols:
+        return None
+    idx = [sp.index(s) for s in species]
+    return np.array([[cols[j][1][i] for j in range(len(cols))] for i in idx], dtype=float).reshape(len(idx), len(cols))
+
+
+def observe_H(H, order=None, warm=(), view_variants=(), view_reuse=None, opts=None):
+    """Run the implementation on one store object.  Everything returned is JSON-able and float-free
+    except the recorded residual magnitudes (which stay in Python).
+
+    order: the order in which the entry points are queried (a permutation of BLOCKS; default = BLOCKS);
+    warm: entry points queried beforehand with their results thrown away (repeated queries);
+    view_variants: indices into VIEW_VARIANTS, each handed to build_S as a NetworkX graph;
+    view_reuse: a DiGraph object reused (cleared + refilled) for the default view;
+    opts: non-default tolerances {"tol", "rtol", "eps", "ceps"} for a second round of queries."""
     import numpy as np
     from synkit.CRN.Props import stoich
     from synkit.CRN.Petri import semiflows
 
-    H = build_net(net)
     dump = store_dump(H)
     out = {"dump": dump}
+    real = stoich.linprog
+    rec = _LinprogRecorder(real)
+    raw = {}
+
+    def with_calls(key, f, sink):
+        a = len(rec.calls)
+        sink[key] = f()
+        sink[key + "_calls"] = rec.calls[a:]
+
+    def b_view(sink):
+        G = make_view(H, {"kw": {}, "drop": None}, reuse=view_reuse)
+        sink["view"] = stoich.build_S(G)
+
+    def b_inc(sink):
+        sink["inc"] = H.incidence_matrix(sparse=False)
+        sink["inc_sparse"] = H.incidence_matrix(sparse=True)
+
+    blocks = {
+        "S": lambda k: k.__setitem__("S", stoich.build_S(H)),
+        "Smp": lambda k: k.__setitem__("Smp", stoich.build_S_minus_plus(H)),
+        "view": b_view,
+        "inc": b_inc,
+        "same": lambda k: k.__setitem__("same", stoich.stoichiometric_matrix(H)),
+        "rank": lambda k: k.__setitem__("rank", int(stoich.stoichiometric_rank(H))),
+        "left": lambda k: k.__setitem__("left", stoich.left_nullspace(H)),
+        "right": lambda k: k.__setitem__("right", stoich.right_nullspace(H)),
+        "lrk": lambda k: k.__setitem__("lrk", stoich.left_right_kernels(H)),
+        "psf": lambda k: k.__setitem__("psf", semiflows.find_p_semiflows(H)),
+        "tsf": lambda k: k.__setitem__("tsf", semiflows.find_t_semiflows(H)),
+        "laws": lambda k: k.__setitem__("laws", stoich.integer_conservation_laws(H)),
+        "is_cons": lambda k: with_calls("is_cons", lambda: stoich.is_conservative(H), k),
+        "compute": lambda k: with_calls("compute", lambda: stoich.compute_conservativity(H), k),
+        "is_consi": lambda k: with_calls("is_consi", lambda: stoich.is_consistent(H), k),
+        "summary": lambda k: with_calls("summary", lambda: stoich.summary(H), k),
+    }
+    order = list(order) if order else list(BLOCKS)
+    if sorted(order) != sorted(BLOCKS):
+        raise Infra(f"bad query order {order}")
+    stoich.linprog = rec
     try:
-        sp, rules, S = stoich.build_S(H)
-    except ValueError:
-        out["error"] = "ValueError"
-        return out
-    sp2, rules2, Sm, Sp = stoich.build_S_minus_plus(H)
+        if not dump["species"] or not dump["edges"]:
+            try:
+                stoich.build_S(H)
+            except ValueError:
+                out["error"] = "ValueError"
+                return out
+        for name in warm:
+            try:
+                blocks[name]({})
+            except ValueError:
+                pass
+        for name in order:
+            if name == "S":
+                try:
+                    blocks[name](raw)
+                except ValueError:
+                    out["error"] = "ValueError"
+                    return out
+            else:
+                blocks[name](raw)
+        vraw = []
+        for i in view_variants:
+            kw = VIEW_VARIANTS[i]["kw"]
+            if not kw.get("integer_ids"):
+                # string node ids: a species label may coincide with a prefixed edge id (the caller's choice of
+                # prefixes then merges two nodes); such a view is not a view of the network
+                spfx, rpfx = kw.get("species_prefix", "S:") or "", kw.get("reaction_prefix", "R:") or ""
+                if {spfx + s for s in dump["species"]} & {rpfx + e["id"] for e in dump["edges"]}:
+                    continue
+            vraw.append((i, stoich.build_S(make_view(H, VIEW_VARIANTS[i]))))
+        oraw = None
+        if opts:
+            oraw = {}
+            oraw["rank"] = int(stoich.stoichiometric_rank(H, tol=opts["tol"]))
+            oraw["left"] = stoich.left_nullspace(H, rtol=opts["rtol"])
+            oraw["right"] = stoich.right_nullspace(H, rtol=opts["rtol"])
+            oraw["lrk"] = stoich.left_right_kernels(H, rtol=opts["rtol"])
+            oraw["psf"] = semiflows.find_p_semiflows(H, rtol=opts["rtol"])
+            oraw["tsf"] = semiflows.find_t_semiflows(H, rtol=opts["rtol"])
+            oraw["is_cons"] = stoich.is_conservative(H, eps=opts["eps"])
+            oraw["compute"] = stoich.compute_conservativity(H, rtol=opts["rtol"], eps=opts["eps"])
+            oraw["is_consi"] = stoich.is_consistent(H, eps=opts["ceps"])
+    finally:
+        stoich.linprog = real
+
+    sp, rules, S = raw["S"]
+    sp2, rules2, Sm, Sp = raw["Smp"]
     Si, exact = as_int_matrix(S)
     Smi, e1 = as_int_matrix(Sm)
     Spi, e2 = as_int_matrix(Sp)
@@ -315,54 +494,77 @@ def observe(net):
                integral=exact and e1 and e2, same_orders=(list(sp) == list(sp2) and list(rules) == list(rules2)),
                shape=list(np.asarray(S).shape))
     Sf = np.array(Si, dtype=float).reshape(len(sp), len(rules))
+    # the network's own matrix read off the store, rows as the implementation labelled them, columns in the
+    # store's edge order: what a flux vector / conservation law returned for this network has to annihilate
+    St = store_matrix(dump, out["species"])
+    if St is not None and St.shape != Sf.shape:
+        St = None
     # the same network handed over as its exported bipartite view (string node ids)
-    from synkit.CRN.Hypergraph.conversion import hypergraph_to_bipartite
-    spv, rulesv, Sv = stoich.build_S(hypergraph_to_bipartite(H))
+    spv, rulesv, Sv = raw["view"]
     Svi, ev = as_int_matrix(Sv)
     out["view"] = {"species": [str(x) for x in spv], "rules": [str(x) for x in rulesv], "S": Svi, "integral": ev}
-    so, eo, inc = H.incidence_matrix(sparse=False)
+    out["views"] = []
+    for i, (a, b, c) in vraw:
+        ci, ex = as_int_matrix(c)
+        out["views"].append({"variant": i, "species": [str(x) for x in a], "rules": [str(x) for x in b], "S": ci, "integral": ex})
+    so, eo, inc = raw["inc"]
     out["inc"] = {"species": list(so), "edges": list(eo), "M": [[int(x) for x in row] for row in np.asarray(inc).tolist()]}
-    so_s, eo_s, mp = H.incidence_matrix(sparse=True)
+    so_s, eo_s, mp = raw["inc_sparse"]
     out["inc_sparse"] = sorted([s, e, int(v)] for (s, e), v in mp.items() if v != 0)
-    out["stoichiometric_matrix_same"] = bool(np.array_equal(stoich.stoichiometric_matrix(H), S))
-    out["rank"] = int(stoich.stoichiometric_rank(H))
-    Lb = stoich.left_nullspace(H)
-    Rb = stoich.right_nullspace(H)
-    out["left"] = basis_report(Lb, Sf, "left", len(sp))
-    out["right"] = basis_report(Rb, Sf, "right", len(rules))
-    L2, R2 = stoich.left_right_kernels(H)
-    out["left_right_kernels"] = [basis_report(L2, Sf, "left", len(sp)), basis_report(R2, Sf, "right", len(rules))]
-    out["p_semiflows"] = basis_report(semiflows.find_p_semiflows(H), Sf, "left", len(sp))
-    out["t_semiflows"] = basis_report(semiflows.find_t_semiflows(H), Sf, "right", len(rules))
-    laws = stoich.integer_conservation_laws(H)
+    out["stoichiometric_matrix_same"] = bool(np.array_equal(raw["same"], S))
+    out["rank"] = raw["rank"]
+    Lb, Rb = raw["left"], raw["right"]
+
+    def rep(B, side, nrows):
+        r = basis_report(B, Sf, side, nrows)
+        if St is not None and not r.get("bad_shape") and "worst" in r:
+            r["worst_store"] = basis_report(B, St, side, nrows)["worst"]
+        return r
+
+    out["left"] = rep(Lb, "left", len(sp))
+    out["right"] = rep(Rb, "right", len(rules))
+    L2, R2 = raw["lrk"]
+    out["left_right_kernels"] = [rep(L2, "left", len(sp)), rep(R2, "right", len(rules))]
+    out["p_semiflows"] = rep(raw["psf"], "left", len(sp))
+    out["t_semiflows"] = rep(raw["tsf"], "right", len(rules))
+    laws = raw["laws"]
     out["int_laws"] = {"n": len(laws), "exact": sum(1 for l in laws if len(l) == len(sp) and any(l) and
                                                       all(sum(l[i] * Si[i][j] for i in range(len(sp))) == 0 for j in range(len(rules))))}
-    real = stoich.linprog
-    rec = _LinprogRecorder(real)
-    stoich.linprog = rec
-    try:
-        out["is_conservative"] = stoich.is_conservative(H)
-        n0 = len(rec.calls)
-        flag, mw = stoich.compute_conservativity(H)
-        n1 = len(rec.calls)
-        out["is_consistent"] = stoich.is_consistent(H)
-        n2 = len(rec.calls)
-        sm = stoich.summary(H)
-    finally:
-        stoich.linprog = real
+    out["is_conservative"] = raw["is_cons"]
+    flag, mw = raw["compute"]
+    out["is_consistent"] = raw["is_consi"]
+    sm = raw["summary"]
     out["compute_flag"] = flag
-    if mw is None:
-        out["witness"] = None
-    else:
+
+    def witness(mw):
+        if mw is None:
+            return None
         mw = np.asarray(mw, dtype=float)
         nm = float(np.linalg.norm(mw))
-        out["witness"] = {"len": int(mw.size), "positive": bool(mw.size == len(sp) and np.all(mw > 0)),
-                          "residual": (float(np.max(np.abs(mw @ Sf))) / nm) if (mw.size == len(sp) and nm > 0) else float("inf")}
+        ok = mw.size == len(sp) and nm > 0
+        w = {"len": int(mw.size), "positive": bool(mw.size == len(sp) and np.all(mw > 0)),
+             "residual": (float(np.max(np.abs(mw @ Sf))) / nm) if ok else float("inf")}
+        if St is not None and ok:
+            w["residual_store"] = float(np.max(np.abs(mw @ St))) / nm
+        return w
+
+    out["witness"] = witness(mw)
     out["summary"] = {k: (v if v is None or isinstance(v, bool) else int(v)) for k, v in sm.to_dict().items()}
+    if oraw is not None:
+        o2 = {"opts": opts, "rank": oraw["rank"], "left": rep(oraw["left"], "left", len(sp)), "right": rep(oraw["right"], "right", len(rules)),
+              "left_right_kernels": [rep(oraw["lrk"][0], "left", len(sp)), rep(oraw["lrk"][1], "right", len(rules))],
+              "p_semiflows": rep(oraw["psf"], "left", len(sp)), "t_semiflows": rep(oraw["tsf"], "right", len(rules)),
+              "is_conservative": oraw["is_cons"], "compute_flag": oraw["compute"][0], "witness": witness(oraw["compute"][1]),
+              "is_consistent": oraw["is_consi"]}
+        Bo = np.atleast_2d(oraw["left"])
+        ko = Bo.shape[1] if Bo.size else 0
+        o2["lk"] = int(ko)
+        o2["lscan"] = [bool(np.all(Bo[:, k] > opts["eps"]) or np.all(Bo[:, k] < -opts["eps"])) for k in range(ko)]
+        out["opt"] = o2
     # ---- oracle observations for the modelled decision logic
     B = np.atleast_2d(Lb)
     k = B.shape[1] if B.size else 0
-    lp_calls = [c for c in rec.calls[:n0] if c["kind"] == "ub"]
+    lp_calls = [c for c in raw["is_cons_calls"] if c["kind"] == "ub"]
     lp = "failed"
     if lp_calls:
         c = lp_calls[-1]
@@ -375,7 +577,7 @@ def observe(net):
             lp = "infeasible"
         elif c["status"] == 3:
             lp = "unbounded"
-    eq_calls = [c for c in rec.calls[n1:n2] if c["kind"] == "eq"]
+    eq_calls = [c for c in raw["is_consi_calls"] if c["kind"] == "eq"]
     clp = {"kind": "other"}
     if eq_calls:
         c = eq_calls[-1]
@@ -396,6 +598,12 @@ def observe(net):
     return out
 
 
+def observe(net):
+    """One freshly built network; the optional keys `views` / `opts` / `order` of the net select the extra queries."""
+    return observe_H(build_net(net), order=net.get("order"), warm=net.get("warm", ()), view_variants=net.get("views", ()),
+                     opts=net.get("opts"))
+
+
 def certificates(dump):
     """Exact certificates for the specification matrix of the stored network."""
     sp, cols = spec_S(dump)
@@ -408,13 +616,8 @@ def certificates(dump):
     return cert
 
 
-def work(net):
-    """Worker: observation + certificates + the driver request."""
-    try:
-        obs = observe(net)
-    except Exception as e:  # the implementation raised on a well-formed network: a verdict, not an infrastructure failure
-        import traceback
-        obs = {"dump": store_dump(build_net(net)), "crash": f"{type(e).__name__}: {e}", "trace": traceback.format_exc()[-1500:]}
+def package(obs):
+    """Certificates + the two driver requests for one observed store state."""
     req = {"cmd": "stoich.check", "species": obs["dump"]["species"], "edges": obs["dump"]["edges"]}
     cert = None
     if obs["dump"]["species"] and obs["dump"]["edges"]:
@@ -432,6 +635,159 @@ def work(net):
     return obs, cert, req, lreq
 
 
+def work(net):
+    """Worker: observation + certificates + the driver request."""
+    try:
+        obs = observe(net)
+    except Exception as e:  # the implementation raised on a well-formed network: a verdict, not an infrastructure failure
+        import traceback
+        if isinstance(e, Infra):
+            raise
+        obs = {"dump": store_dump(build_net(net)), "crash": f"{type(e).__name__}: {e}", "trace": traceback.format_exc()[-1500:]}
+    return package(obs)
+
+
+# =============================================================== sessions (one store object, edited and queried again)
+def _pick(seq, i):
+    return seq[i % len(seq)] if seq else None
+
+
+def _resolve_side(spec, names, extra):
+    """[[index, coeff]..] -> {label: coeff}; an index beyond the current species addresses a new label."""
+    out = {}
+    pool_ = list(names) + list(extra)
+    for i, c in spec:
+        if pool_:
+            out[pool_[i % len(pool_)]] = c
+    return out
+
+
+def apply_edit(W, cur, ed, log):
+    """Apply one symbolic edit to the store W[cur] through the public hypergraph API.  Indices are resolved
+    against the store as it is (sorted edge ids / sorted species labels), so that every edit is applicable;
+    the concrete call is appended to `log`.  -> index of the store that is current afterwards."""
+    import gc
+
+    H = W[cur]
+    ids = sorted(H.edges)
+    sps = sorted(H.species)
+    op = ed["op"]
+    if op == "noop":
+        log.append("(no edit)")
+    elif op == "strip":
+        s = _pick(sps, ed["i"])
+        if s is not None:
+            H.remove_species(s, prune_orphans=ed["prune"])
+            log.append(f"H.remove_species({s!r}, prune_orphans={ed['prune']})")
+    elif op == "remove":
+        eid = _pick(ids, ed["e"])
+        if eid is not None and len(ids) > 1:
+            H.remove_rxn(eid)
+            log.append(f"H.remove_rxn({eid!r})")
+    elif op == "replace":
+        eid = _pick(ids, ed["e"])
+        if eid is not None:
+            old = H.edges[eid]
+            r0, p0, rule = dict(old.reactants.items()), dict(old.products.items()), old.rule
+            how = ed["how"]
+            if how == "reverse":
+                r, p = p0, r0
+            elif how == "scale":
+                r, p = dict(r0), dict(p0)
+                side = p if (p and (ed["k"] % 2 or not r)) else r
+                s = _pick(sorted(side), ed["k"])
+                side[s] = side[s] % 3 + 1
+            else:
+                r, p = _resolve_side(ed["r"], sps, ()), _resolve_side(ed["p"], sps, ())
+                if not r and not p:
+                    r, p = p0, r0
+            if ed.get("rule") is not None:
+                rule = ed["rule"]
+            H.remove_rxn(eid)
+            H.add_rxn(r, p, rule=rule, edge_id=eid)
+            log.append(f"H.remove_rxn({eid!r}); H.add_rxn({r!r}, {p!r}, rule={rule!r}, edge_id={eid!r})")
+    elif op == "coef":
+        eid = _pick(ids, ed["e"])
+        if eid is not None:
+            e = H.get_edge(eid)
+            name, side = ("products", e.products) if (len(e.products) and (ed["side"] == "p" or not len(e.reactants))) else ("reactants", e.reactants)
+            s = _pick(sorted(side.keys()), ed["i"])
+            if ed["how"] == "incr":
+                side.incr(s, 1)
+                log.append(f"H.get_edge({eid!r}).{name}.incr({s!r}, 1)")
+            else:
+                c = ed["c"] if ed["c"] != side[s] else side[s] % 3 + 1
+                side[s] = c
+                log.append(f"H.get_edge({eid!r}).{name}[{s!r}] = {c}")
+    elif op == "rule":
+        eid = _pick(ids, ed["e"])
+        if eid is not None:
+            H.get_edge(eid).rule = ed["rule"]
+            log.append(f"H.get_edge({eid!r}).rule = {ed['rule']!r}")
+    elif op == "add":
+        r, p = _resolve_side(ed["r"], sps, ed.get("new", ())), _resolve_side(ed["p"], sps, ed.get("new", ()))
+        if r or p:
+            e = H.add_rxn(r, p, rule=ed.get("rule"))
+            log.append(f"H.add_rxn({r!r}, {p!r}, rule={ed.get('rule')!r})  # id {e.id!r}")
+    elif op == "copy":
+        W.append(H.copy())
+        cur = len(W) - 1
+        log.append(f"H{cur} = H.copy(); continue with H{cur}")
+    elif op == "switch":
+        cur = ed["k"] % len(W)
+        log.append(f"continue with H{cur}")
+    elif op == "merge":
+        H.merge(build_net(ed["net"]), prefix_edges=ed["pfx"])
+        log.append(f"H.merge(<{len(ed['net']['rxns'])} reactions>, prefix_edges={ed['pfx']})")
+    elif op == "fresh":
+        # a NEW store object (very likely at the address of the one just released) with other content
+        W[cur] = None
+        del H
+        gc.collect()
+        W[cur] = build_net(ed["net"])
+        log.append("H = <new CRNHyperGraph with other content, the old object released>")
+    else:
+        raise Infra(f"unknown edit {op}")
+    return cur
+
+
+def work_session(case):
+    """Worker: build the base network, observe; apply each step's edit to the SAME object, observe again.
+    -> list of per-state (obs, cert, req, lreq) + the log of concrete calls."""
+    import networkx as nx
+    import traceback
+
+    W = [build_net(case["net"])]
+    cur = 0
+    reuse = nx.DiGraph() if case.get("reuse_view") else None
+    states, calls = [], []
+    steps = [dict(case.get("first") or {}, edit={"op": "noop"})] + list(case["steps"])
+    for k, st in enumerate(steps):
+        log = []
+        if k > 0:
+            cur = apply_edit(W, cur, st["edit"], log)
+            if not log:
+                log.append("(edit not applicable)")
+        calls.append(log)
+        H = W[cur]
+        try:
+            obs = observe_H(H, order=st.get("order"), warm=st.get("warm", ()), view_variants=st.get("views", ()),
+                            view_reuse=reuse, opts=st.get("opts"))
+        except Exception as e:
+            if isinstance(e, Infra):
+                raise
+            obs = {"dump": store_dump(H), "crash": f"{type(e).__name__}: {e}", "trace": traceback.format_exc()[-1500:]}
+        states.append(package(obs))
+    return states, calls
+
+
+def net_of_dump(dump):
+    """A fresh network with the content of a store dump (explicit ids and rules, isolated species kept)."""
+    used = {s for e in dump["edges"] for s, _ in e["r"] + e["p"]}
+    return {"rxns": [{"r": e["r"], "p": e["p"], "rule": e["rule"], "eid": e["id"]} for e in dump["edges"]],
+            "isolated": [s for s in dump["species"] if s not in used]}
+
+
 # =============================================================== comparison
 def col_multiset(species, rules, M):
     """Columns as (rule, sorted non-zero (species, value) pairs), sorted."""
@@ -442,7 +798,8 @@ def col_multiset(species, rules, M):
 
 
 def judge(obs, cert, lean):
-    """-> list of (what, detail, classes). Empty when every gate holds."""
+    """-> list of (what, detail, classes[, no_input]). Empty when every gate holds.  `no_input` marks a broken
+    correspondence (implementation != model) for which no quantity the property speaks about is wrong."""
     v = []
     dump = obs["dump"]
     if "crash" in obs:
@@ -507,6 +864,36 @@ def judge(obs, cert, lean):
         v.append(("incidence_matrix: sparse mapping and dense matrix differ", {"sparse": obs["inc_sparse"], "dense": dense}, ()))
     if v:
         return v
+    # -- the same network handed over as a NetworkX graph in other ways (ids, prefixes, kind-only / bipartite-only nodes)
+    order_div = []
+    model = (lean["species"], lean["rules"], lean["S"])
+    used = {s for e in dump["edges"] for s, _ in e["r"] + e["p"]}
+    for vv in obs.get("views", []):
+        var = VIEW_VARIANTS[vv["variant"]]
+        keep = [i for i, s in enumerate(sp) if s in used] if var["kw"].get("include_isolated_species") is False else list(range(m))
+        esp = [sp[i] for i in keep]
+        ewant = sorted((c[0], tuple((sp[i], c[1][i]) for i in keep)) for c in cols)
+        if not vv["integral"] or sorted(vv["species"]) != esp or len(vv["rules"]) != n or \
+                col_multiset(esp, vv["rules"], [vv["S"][vv["species"].index(x)] for x in esp]) != ewant:
+            v.append(("build_S on a NetworkX view of the network (hypergraph_to_bipartite with non-default options) differs from produced minus consumed",
+                      {"variant": var, "impl": vv, "spec": ewant}, ()))
+        elif (vv["species"], vv["rules"], vv["S"]) != (esp, lean["rules"], [lean["S"][lean["species"].index(x)] for x in esp]):
+            order_div.append({"variant": var, "impl": [vv["species"], vv["rules"], vv["S"]]})
+    if v:
+        return v
+    # -- row / column ORDER (model of build_S, theorem buildS_orders).  The returned reaction labels are the rule
+    # names, so the only way to tell which reaction a column (a flux coordinate) belongs to is the order: rows by
+    # species label, columns in the store's edge order (by id), stably regrouped by rule label.
+    same = model == (obs["species"], obs["rules"], obs["S"])
+    if not same:
+        order_div.append({"impl": [obs["species"], obs["rules"], obs["S"]]})
+    if (vw["species"], vw["rules"], vw["S"]) != model:
+        order_div.append({"variant": "exported bipartite view (string ids)", "impl": [vw["species"], vw["rules"], vw["S"]]})
+    flux_bases = [("right_nullspace", obs["right"]), ("left_right_kernels[1]", obs["left_right_kernels"][1]), ("find_t_semiflows", obs["t_semiflows"])]
+    if order_div and not any(rep.get("worst_store", 0.0) > TOL for _, rep in flux_bases):
+        v.append(("build_S: the order of the rows / columns of S differs from the model of build_S (species by label; reactions in the store's "
+                  "edge order, stably regrouped by rule label) although the columns agree as a multiset",
+                  {"divergences": order_div[:3], "model": list(model), "store_edge_order": [c[4] for c in cols]}, (), True))
     # -- rank and dimensions
     if obs["rank"] != r:
         v.append(("stoichiometric_rank differs from the certified exact rank", {"impl": obs["rank"], "exact": r}, ()))
@@ -524,6 +911,12 @@ def judge(obs, cert, lean):
             v.append((f"{name}: a basis vector does not annihilate S (relative residual > 1e-9)", {"worst": rep["worst"]}, ()))
         elif not rep["independent"]:
             v.append((f"{name}: reported vectors are numerically dependent", {"shape": rep["shape"]}, ()))
+        elif rep.get("worst_store", 0.0) > TOL:
+            v.append((f"{name}: a basis vector does not annihilate the network's own incidence matrix taken in the store's edge order "
+                      "(build_S arranges the columns of S in another order than the reactions they stand for; the returned reaction "
+                      "labels are the rule names and cannot undo it)",
+                      {"worst_relative_residual": rep["worst_store"], "build_S": [obs["species"], obs["rules"], obs["S"]],
+                       "model": list(model), "store_edge_order": [c[4] for c in cols]}, ()))
     # -- conservativity
     lk = obs["oracle"]["lk"]
     lp_stage = lk >= 2 and not any(obs["oracle"]["lscan"])
@@ -536,7 +929,7 @@ def judge(obs, cert, lean):
                       {"verdict": verdict, "certificate": cert["cons"], "left_kernel_dim": lk, "sign_definite_columns": obs["oracle"]["lscan"],
                        "lp": obs["oracle"]["lp"]}, cls))
     w = obs["witness"]
-    if w is not None and not (w["positive"] and w["residual"] <= TOL):
+    if w is not None and not (w["positive"] and w["residual"] <= TOL and w.get("residual_store", 0.0) <= TOL):
         v.append(("compute_conservativity returned a vector that is not a strictly positive conservation law", w, ()))
     # -- consistency
     for name, verdict in [("is_consistent", obs["is_consistent"]), ("summary.is_consistent", s["is_consistent"])]:
@@ -544,6 +937,34 @@ def judge(obs, cert, lean):
             v.append((f"{name} = {verdict} but a strictly positive steady flux "
                       + ("exists (checked certificate)" if consistent else "does not exist (checked Stiemke alternative)"),
                       {"verdict": verdict, "certificate": cert["consi"], "lp": obs["oracle"]["clp"], "lp_status": obs["oracle"]["clp_status"]}, ()))
+    # -- the same questions asked with non-default (still tiny) tolerances
+    o2 = obs.get("opt")
+    if o2 is not None:
+        tag = "with non-default tolerances " + json.dumps(o2["opts"], sort_keys=True) + ": "
+        if o2["rank"] != r:
+            v.append((tag + "stoichiometric_rank differs from the certified exact rank", {"impl": o2["rank"], "exact": r}, ()))
+        for name, rep, rows, dim in [("left_nullspace", o2["left"], m, m - r), ("right_nullspace", o2["right"], n, n - r),
+                                     ("left_right_kernels[0]", o2["left_right_kernels"][0], m, m - r),
+                                     ("left_right_kernels[1]", o2["left_right_kernels"][1], n, n - r),
+                                     ("find_p_semiflows", o2["p_semiflows"], m, m - r), ("find_t_semiflows", o2["t_semiflows"], n, n - r)]:
+            if rep["bad_shape"] or rep["shape"][1] != dim:
+                v.append((tag + f"{name}: basis has the wrong dimension", {"shape": rep["shape"], "expected": [rows, dim]}, ()))
+            elif rep["worst"] > TOL or rep.get("worst_store", 0.0) > TOL or not rep["independent"]:
+                v.append((tag + f"{name}: not an independent family of vectors annihilating S", {"report": rep}, ()))
+        lp2 = o2["lk"] >= 2 and not any(o2["lscan"])
+        for name, verdict in [("is_conservative", o2["is_conservative"]), ("compute_conservativity", o2["compute_flag"])]:
+            if (verdict is True) != conservative:
+                cls = ["lp_stage"] if (lp2 and verdict is False and conservative) else []
+                v.append((tag + f"{name} = {verdict} but a strictly positive conservation law "
+                          + ("exists (checked certificate)" if conservative else "does not exist (checked Stiemke alternative)"),
+                          {"verdict": verdict, "certificate": cert["cons"], "left_kernel_dim": o2["lk"], "sign_definite_columns": o2["lscan"]}, cls))
+        w = o2["witness"]
+        if w is not None and not (w["positive"] and w["residual"] <= TOL and w.get("residual_store", 0.0) <= TOL):
+            v.append((tag + "compute_conservativity returned a vector that is not a strictly positive conservation law", w, ()))
+        if (o2["is_consistent"] is True) != consistent:
+            v.append((tag + f"is_consistent = {o2['is_consistent']} but a strictly positive steady flux "
+                      + ("exists (checked certificate)" if consistent else "does not exist (checked Stiemke alternative)"),
+                      {"verdict": o2["is_consistent"], "certificate": cert["consi"]}, ()))
     return v
 
 
@@ -551,9 +972,12 @@ def tri(x):
     return x if x is None else bool(x)
 
 
-def record(ctx, net, obs, cert, lean, logic, tag):
-    """Counters describing the population and the (non-gated) agreement with the model."""
+def record(ctx, net, obs, cert, lean, logic, tag, canon=None):
+    """Counters describing the population and the agreement with the model.  `canon`: what identifies the case
+    (default: the stored network; for a session state the history that led to it)."""
     dump = obs["dump"]
+    nodes = len(dump["species"]) + len(dump["edges"])
+    ctx.count("view_nodes:" + ("<10" if nodes < 10 else "10-99" if nodes < 100 else ">=100"))
     if "crash" in obs:
         ctx.count("implementation_raised")
         ctx.case(["crash", dump], False)
@@ -585,8 +1009,14 @@ def record(ctx, net, obs, cert, lean, logic, tag):
     if obs["int_laws"]["n"]:
         ctx.count("integer_laws:reported", obs["int_laws"]["n"])
         ctx.count("integer_laws:exactly_annihilating", obs["int_laws"]["exact"])
-    # model of build_S, exact order (recorded, not gated: the property does not fix the column order)
+    # model of build_S, exact order (gated in judge)
     same = lean["species"] == obs["species"] and lean["rules"] == obs["rules"] and lean["S"] == obs["S"]
+    if len({e["rule"] for e in dump["edges"]}) < n:
+        ctx.count("order:equally_labelled_reactions" + (":ids_not_in_numeric_order" if n >= 10 else ""))
+    for vv in obs.get("views", []):
+        ctx.count("nx_view_variant:" + json.dumps(VIEW_VARIANTS[vv["variant"]], sort_keys=True))
+    if "opt" in obs:
+        ctx.count("non_default_tolerances")
     ctx.count("build_S_equals_model_incl_order" if same else "build_S_differs_from_model_order")
     if not same and len(ctx.extra.setdefault("model_order_divergences", [])) < 3:
         ctx.extra["model_order_divergences"].append({"net": net, "impl": [obs["species"], obs["rules"], obs["S"]],
@@ -607,7 +1037,7 @@ def record(ctx, net, obs, cert, lean, logic, tag):
             ctx.extra["logic_divergences"].append({"net": net, "fields": diff, "oracle": o, "model": logic,
                                                    "impl": {k: val for k, val in pairs}})
     nontrivial = n >= 1 and r >= 1
-    ctx.case(dump, nontrivial, sample={"stream": tag, "net": net, "rank": r, "conservative": cert["cons"] == "pos",
+    ctx.case(dump if canon is None else canon, nontrivial, sample={"stream": tag, "net": net, "rank": r, "conservative": cert["cons"] == "pos",
                                        "consistent": cert["consi"] == "pos"} if n <= 3 else None)
 
 
@@ -644,6 +1074,10 @@ def evaluate(ctx, nets, parallel=True):
     return [(net, r[0], r[1], lean, logics.get(i)) for i, (net, r, lean) in enumerate(zip(nets, rows, leans))]
 
 
+def unpack(t):
+    return (t[0], t[1], t[2], bool(t[3]) if len(t) > 3 else False)
+
+
 def shrink_net(ctx, net, what):
     """Greedy: drop reactions / isolated species, lower coefficients, while the same gate fails."""
     def fails(cand):
@@ -651,12 +1085,29 @@ def shrink_net(ctx, net, what):
             return False
         try:
             (_, obs, cert, lean, _), = evaluate(ctx, [cand], parallel=False)
-            return any(w == what for w, _, _ in judge(obs, cert, lean))
+            return any(t[0] == what for t in judge(obs, cert, lean))
         except Exception:
             return False
 
     cur = json.loads(json.dumps(net))
-    budget = 150
+    budget = 100
+    # many reactions: first drop blocks of reactions (halves, quarters, ...), then isolated species all at once
+    size = len(cur["rxns"]) // 2
+    while size >= 2 and budget > 0:
+        i = 0
+        while i < len(cur["rxns"]) and budget > 0:
+            c = json.loads(json.dumps(cur)); del c["rxns"][i:i + size]
+            budget -= 1
+            if fails(c):
+                cur = c
+            else:
+                i += size
+        size //= 2
+    if len(cur.get("isolated", [])) > 1 and budget > 0:
+        c = json.loads(json.dumps(cur)); c["isolated"] = []
+        budget -= 1
+        if fails(c):
+            cur = c
     changed = True
     while changed and budget > 0:
         changed = False
@@ -665,16 +1116,17 @@ def shrink_net(ctx, net, what):
             c = json.loads(json.dumps(cur)); del c["rxns"][i]; cands.append(c)
         for i in range(len(cur.get("isolated", []))):
             c = json.loads(json.dumps(cur)); del c["isolated"][i]; cands.append(c)
-        for i, rx in enumerate(cur["rxns"]):
-            for side in ("r", "p"):
-                for k in range(len(rx[side])):
-                    c = json.loads(json.dumps(cur))
-                    if c["rxns"][i][side][k][1] > 1:
-                        c["rxns"][i][side][k][1] -= 1
-                    else:
-                        del c["rxns"][i][side][k]
-                    if c["rxns"][i]["r"] or c["rxns"][i]["p"]:
-                        cands.append(c)
+        if len(cur["rxns"]) <= 12:
+            for i, rx in enumerate(cur["rxns"]):
+                for side in ("r", "p"):
+                    for k in range(len(rx[side])):
+                        c = json.loads(json.dumps(cur))
+                        if c["rxns"][i][side][k][1] > 1:
+                            c["rxns"][i][side][k][1] -= 1
+                        else:
+                            del c["rxns"][i][side][k]
+                        if c["rxns"][i]["r"] or c["rxns"][i]["p"]:
+                            cands.append(c)
         for c in cands:
             budget -= 1
             if budget <= 0:
@@ -686,25 +1138,138 @@ def shrink_net(ctx, net, what):
     return cur
 
 
+def report(ctx, what, case, detail, classes, no_input, state, shrinker):
+    """Shared bookkeeping: classified hits are counted (first 300 kept), the first few unknown ones are shrunk."""
+    if classes:
+        # classified (known) hits are numerous: keep the first few hundred as cases, count the rest
+        if sum(1 for x in ctx.violations if x["classes"]) < 300:
+            ctx.violation(what, case, detail, classes=classes)
+        ctx.count("classified_hits:" + ",".join(classes))
+        return
+    state["unknown"] += 1
+    done = getattr(ctx, "_c17_shrunk", 0)
+    if state["unknown"] <= 3 and done < 8:      # shrinking costs a driver round trip per candidate: first few only
+        ctx._c17_shrunk = done + 1
+        small, extra = shrinker(case, what)
+        ctx.violation(what, small, {**detail, **extra, "original": case}, no_input=no_input)
+    elif state["unknown"] <= 40:
+        ctx.violation(what, case, detail, no_input=no_input)
+
+
 def run_nets(ctx, nets, tag, chunk=6000):
-    unknown = 0
+    state = {"unknown": 0}
     for a in range(0, len(nets), chunk):
         for net, obs, cert, lean, logic in evaluate(ctx, nets[a:a + chunk]):
             record(ctx, net, obs, cert, lean, logic, tag)
-            for what, detail, classes in judge(obs, cert, lean):
-                if classes:
-                    # classified (known) hits are numerous: keep the first few hundred as cases, count the rest
-                    if sum(1 for x in ctx.violations if x["classes"]) < 300:
-                        ctx.violation(what, {"net": net}, {**detail, "stream": tag}, classes=classes)
-                    ctx.count("classified_hits:" + ",".join(classes))
-                    continue
-                unknown += 1
-                if unknown <= 4:
-                    small = shrink_net(ctx, net, what)
-                    ctx.violation(what, {"net": small}, {**detail, "stream": tag, "original": net})
-                elif unknown <= 40:
-                    ctx.violation(what, {"net": net}, {**detail, "stream": tag})
-        if unknown > 40:
+            for what, detail, classes, no_input in map(unpack, judge(obs, cert, lean)):
+                report(ctx, what, {"net": net}, {**detail, "stream": tag}, classes, no_input, state,
+                       lambda case, w: ({"net": shrink_net(ctx, case["net"], w)}, {}))
+        if state["unknown"] > 40:
+            break
+
+
+# ---------------------------------------------------------------- sessions
+def evaluate_sessions(ctx, cases, parallel=True):
+    """-> per case: (list of (obs, cert, lean, logic) per state, log of concrete calls per state)."""
+    if parallel and len(cases) >= 32:
+        rows = pool().map(work_session, cases, chunksize=max(1, min(50, len(cases) // 64)))
+    else:
+        rows = [work_session(c) for c in cases]
+    flat = [(i, k, st) for i, (states, _) in enumerate(rows) for k, st in enumerate(states)]
+    leans = ctx.lean().ok([st[2] for _, _, st in flat], shards=8)
+    lidx = [j for j, (_, _, st) in enumerate(flat) if st[3] is not None]
+    logics = dict(zip(lidx, ctx.lean().ok([flat[j][2][3] for j in lidx], shards=8)))
+    out = [([], calls) for _, calls in rows]
+    for j, (i, k, st) in enumerate(flat):
+        out[i][0].append((st[0], st[1], leans[j], logics.get(j)))
+    return out
+
+
+def session_prefix(case, k):
+    """The history up to and including state k (state 0 = the freshly built base network)."""
+    c = {key: val for key, val in case.items() if key != "steps"}
+    c["steps"] = case["steps"][:k]
+    return c
+
+
+def session_failures(ctx, case):
+    """-> [(state index, what)] over all states of one session."""
+    (states, _), = evaluate_sessions(ctx, [case], parallel=False)
+    return [(k, t[0]) for k, (obs, cert, lean, _) in enumerate(states) for t in judge(obs, cert, lean)]
+
+
+def shrink_session(ctx, case, what):
+    """Greedy: drop steps before the last, drop warm-up queries / query orders / extra views, drop base reactions;
+    the LAST state has to keep failing the same gate.  Also reports whether a fresh object with the content of the
+    failing state passes (then the failure is due to the history, not to the network)."""
+    def fails(cand):
+        try:
+            return any(k == len(cand["steps"]) and w == what for k, w in session_failures(ctx, cand))
+        except Exception:
+            return False
+
+    cur = json.loads(json.dumps(case))
+    budget = 60
+    changed = True
+    while changed and budget > 0:
+        changed = False
+        cands = []
+        for i in range(len(cur["steps"]) - 1):
+            c = json.loads(json.dumps(cur)); del c["steps"][i]; cands.append(c)
+        for i, st in enumerate([cur.get("first") or {}] + cur["steps"]):
+            if any(st.get(key) for key in ("warm", "order", "views", "opts")):
+                c = json.loads(json.dumps(cur))
+                tgt = c["first"] if i == 0 else c["steps"][i - 1]
+                for key in ("warm", "order", "views", "opts"):
+                    tgt.pop(key, None)
+                cands.append(c)
+        if cur.get("reuse_view"):
+            c = json.loads(json.dumps(cur)); c["reuse_view"] = False; cands.append(c)
+        for i in range(len(cur["net"]["rxns"])):
+            if len(cur["net"]["rxns"]) > 1:
+                c = json.loads(json.dumps(cur)); del c["net"]["rxns"][i]; cands.append(c)
+        for c in cands:
+            budget -= 1
+            if budget <= 0:
+                break
+            if fails(c):
+                cur = c
+                changed = True
+                break
+    extra = {"failing_state": len(cur["steps"])}
+    try:
+        (states, calls), = evaluate_sessions(ctx, [cur], parallel=False)
+        extra["history"] = ["H = <base network>"] + [" ; ".join(l) for l in calls[1:]]
+        last = states[-1][0]
+        extra["network_in_failing_state"] = last["dump"]
+        fresh = net_of_dump(last["dump"])
+        (_, obs, cert, lean, _), = evaluate(ctx, [fresh], parallel=False)
+        extra["fresh_object_with_same_content_passes"] = not any(t[0] == what for t in judge(obs, cert, lean))
+    except Exception as e:  # diagnostics only
+        extra["diagnostics_failed"] = repr(e)
+    return cur, extra
+
+
+def run_sessions(ctx, cases, tag):
+    state = {"unknown": 0}
+    for case, (states, calls) in zip(cases, evaluate_sessions(ctx, cases)):
+        ctx.count(f"{tag}:sessions")
+        for st, log in zip(case["steps"], calls[1:]):
+            ctx.count("session_edit:" + st["edit"]["op"] + (":" + st["edit"]["how"] if "how" in st["edit"] else "")
+                      + (":not_applicable" if log == ["(edit not applicable)"] else ""))
+        first_bad = None
+        for k, (obs, cert, lean, logic) in enumerate(states):
+            pref = session_prefix(case, k)
+            record(ctx, pref["net"], obs, cert, lean, logic, tag, canon=["session", pref])
+            if first_bad is not None:
+                continue     # later states of a failing history are not independent evidence
+            for what, detail, classes, no_input in map(unpack, judge(obs, cert, lean)):
+                if not classes:
+                    first_bad = k
+                report(ctx, what, pref, {**detail, "stream": tag, "failing_state": k,
+                                         "history": ["H = <base network>"] + [" ; ".join(l) for l in calls[1:k + 1]]},
+                       classes, no_input, state, lambda c, w: shrink_session(ctx, c, w))
+        if state["unknown"] > 40:
             break
 
 
@@ -812,6 +1377,223 @@ def textbook(rnd):
     return out
 
 
+# ---------------------------------------------------------------- new populations
+def query_plan(rnd, rich=True):
+    """Per-state choice of how the entry points are queried: order, repeated (warm-up) queries, NetworkX view
+    variants, non-default tolerances."""
+    st = {}
+    if rnd.random() < 0.6:
+        order = list(BLOCKS)
+        rnd.shuffle(order)
+        st["order"] = order
+    if rnd.random() < 0.4:
+        st["warm"] = [rnd.choice(BLOCKS) for _ in range(rnd.randint(1, 4))]
+    if rich and rnd.random() < 0.5:
+        st["views"] = sorted(rnd.sample(range(len(VIEW_VARIANTS)), rnd.randint(1, 3)))
+    if rich and rnd.random() < 0.3:
+        st["opts"] = {"tol": rnd.choice([1e-12, 1e-10, 1e-9, 1e-8]), "rtol": rnd.choice([1e-13, 1e-12, 1e-11, 1e-10]),
+                      "eps": rnd.choice([1e-8, 2e-8, 1e-7]), "ceps": rnd.choice([1e-8, 1e-6, 1e-3, 0.5])}
+    return st
+
+
+def index_side(rnd, kmax=2):
+    return [[rnd.randint(0, 9), rnd.choice([1, 1, 2, 3])] for _ in range(rnd.randint(0, kmax))]
+
+
+def random_edit(rnd):
+    c = rnd.random()
+    if c < 0.20:
+        return {"op": "strip", "i": rnd.randint(0, 9), "prune": rnd.random() < 0.3}
+    if c < 0.42:
+        how = rnd.choice(["reverse", "scale", "scale", "rand"])
+        ed = {"op": "replace", "e": rnd.randint(0, 9), "how": how, "k": rnd.randint(0, 9),
+              "rule": rnd.choice([None, None, None, "r", "a", "z"])}
+        if how == "rand":
+            ed["r"], ed["p"] = index_side(rnd), index_side(rnd)
+        return ed
+    if c < 0.64:
+        return {"op": "coef", "e": rnd.randint(0, 9), "side": rnd.choice("rp"), "i": rnd.randint(0, 9),
+                "how": rnd.choice(["set", "set", "incr"]), "c": rnd.choice([1, 2, 2, 3])}
+    if c < 0.70:
+        return {"op": "remove", "e": rnd.randint(0, 9)}
+    if c < 0.78:
+        return {"op": "add", "r": index_side(rnd), "p": index_side(rnd), "new": rnd.choice([[], [], ["N"], ["A0", "zz"]]),
+                "rule": rnd.choice([None, None, "a", "z"])}
+    if c < 0.82:
+        return {"op": "rule", "e": rnd.randint(0, 9), "rule": rnd.choice(["a", "z", "R1", "r"])}
+    if c < 0.87:
+        return {"op": "copy"}
+    if c < 0.90:
+        return {"op": "switch", "k": rnd.randint(0, 3)}
+    if c < 0.93:
+        return {"op": "merge", "net": tiny_net(rnd), "pfx": rnd.random() < 0.5}
+    if c < 0.97:
+        return {"op": "fresh", "net": tiny_net(rnd) if rnd.random() < 0.5 else random_net(rnd)}
+    return {"op": "noop"}
+
+
+def tiny_net(rnd):
+    """<= 2 reactions over A, B, C with coefficients in {0,1,2} (the exhaustive family)."""
+    out = []
+    while len(out) < rnd.randint(1, 2):
+        c = tuple(rnd.randint(0, 2) for _ in range(6))
+        if any(c):
+            out.append(code_to_rx(c))
+    return {"rxns": out}
+
+
+def random_session(rnd):
+    base = tiny_net(rnd) if rnd.random() < 0.45 else random_net(rnd)
+    if rnd.random() < 0.3:            # explicit ids: an edit that re-uses an id is then the common case
+        for i, r0 in enumerate(base["rxns"]):
+            if r0.get("eid") is None:
+                r0["eid"] = f"e{i + 1}"
+    case = {"net": base, "first": query_plan(rnd, rich=False), "steps": [], "reuse_view": rnd.random() < 0.5}
+    for _ in range(rnd.choice([1, 1, 2, 2, 3, 4])):
+        case["steps"].append({"edit": random_edit(rnd), **query_plan(rnd, rich=rnd.random() < 0.3)})
+    return case
+
+
+def label_pool(rnd, n):
+    """n distinct species labels of one of several shapes (string order != numeric order, digits only, mixed case,
+    blanks, non-ASCII, labels that look like node ids / edge ids of the exported views)."""
+    kind = rnd.choice(["X", "X", "pad", "digits", "mixed", "odd"])
+    if kind == "X":
+        return [f"X{i}" for i in range(1, n + 1)]
+    if kind == "pad":
+        return [f"s{i:03d}" for i in range(n)]
+    if kind == "digits":
+        return [str(i) for i in rnd.sample(range(1, 3 * n + 10), n)]
+    if kind == "mixed":
+        base = [a + b for a in "ABab" for b in ["", "1", "2", "10", "_x", "'"]]
+        out = rnd.sample(base, min(n, len(base)))
+        return out + [f"m{i}" for i in range(n - len(out))]
+    odd = ["r_1", "r_2", "r", "H2O", "O 2", "\u03b1", "\u00e9t", "S:A", "A", "R:r_1", "1", "10", "2", "Z9", "a b", "C+", "e1", "x.y"]
+    out = rnd.sample(odd, min(n, len(odd)))
+    return out + [f"o{i}" for i in range(n - len(out))]
+
+
+def sized_net(rnd, ns, nr):
+    """A network with exactly ns species (all used or isolated) and nr reactions, tiny coefficients, built from
+    textbook pieces (chain / reversible chain / cycle / open ends) plus random sparse reactions."""
+    sp = label_pool(rnd, ns)
+    rnd.shuffle(sp)
+    kind = rnd.choice(["chain", "rev", "cycle", "open", "sparse", "sparse"])
+    cf = lambda: rnd.choice([1, 1, 1, 1, 2, 3])
+    rxns = []
+    steps = [(sp[i], sp[i + 1]) for i in range(ns - 1)]
+    if kind == "cycle" and ns >= 3:
+        steps.append((sp[-1], sp[0]))
+    if kind == "open":
+        rxns.append(rx([], [(sp[0], 1)]))
+        rxns.append(rx([(sp[-1], 1)], []))
+    plain = rnd.random() < 0.6
+    for a, b in steps:
+        if len(rxns) >= nr:
+            break
+        if kind == "sparse":
+            break
+        rxns.append(rx([(a, 1 if plain else cf())], [(b, 1 if plain else cf())]))
+        if kind == "rev" and len(rxns) < nr:
+            rxns.append(rx([(b, 1)], [(a, 1)]))
+    while len(rxns) < nr:
+        c = rnd.random()
+        if rxns and c < 0.2:
+            b0 = rnd.choice(rxns)
+            rxns.append(rx([tuple(x) for x in b0["p"]], [tuple(x) for x in b0["r"]]))
+        elif rxns and c < 0.25:
+            b0 = rnd.choice(rxns)
+            rxns.append(rx([tuple(x) for x in b0["r"]], [tuple(x) for x in b0["p"]]))
+        else:
+            k1, k2 = rnd.choice([(1, 1), (1, 1), (2, 1), (1, 2), (2, 2), (0, 1), (1, 0)])
+            k1, k2 = min(k1, ns), min(k2, ns)
+            r0, p0 = [(s, cf()) for s in rnd.sample(sp, k1)], [(s, cf()) for s in rnd.sample(sp, k2)]
+            if r0 or p0:
+                rxns.append(rx(r0, p0))
+    rxns = rxns[:nr]
+    rnd.shuffle(rxns)
+    mode = rnd.random()
+    numeric_ids = [str(x) for x in rnd.sample(range(1, 4 * nr + 8), nr)]
+    for i, r0 in enumerate(rxns):
+        if mode < 0.55:
+            pass                                   # default rule 'r', generated ids r_1 .. r_n (r_10 < r_2 as strings)
+        elif mode < 0.75:
+            r0["rule"] = rnd.choice(["r", "r", "a", "z", "R1"])
+        elif mode < 0.9:
+            r0["eid"] = numeric_ids[i]             # '12' < '3' as strings
+        else:
+            r0["rule"] = rnd.choice([None, "b"])
+            r0["form"] = rnd.choice(["list", "pairs", "side", "str", "dict"])
+    used = {s for r0 in rxns for s, _ in r0["r"] + r0["p"]}
+    return {"rxns": rxns, "isolated": [s for s in sp if s not in used]}
+
+
+def sized_population(rnd, quick):
+    """(ns, nr) chosen so that the integer-id view (species 1..ns, reactions ns+1..ns+nr) has its reaction ids
+    straddle 10 or 100, sits just below / above these, or is far inside a decade."""
+    k = 1 if quick else 8
+    shapes = []
+    for _ in range(110 * k):          # reaction ids straddle 10
+        ns = rnd.randint(1, 8)
+        shapes.append((ns, rnd.randint(max(2, 10 - ns), max(2, 10 - ns) + 5)))
+    for _ in range(40 * k):           # 10 .. 99 nodes
+        ns = rnd.randint(3, 30)
+        shapes.append((ns, rnd.randint(max(1, 10 - ns), 28)))
+    for _ in range(10 * k):           # >= 10 reactions with generated ids: r_10 sorts before r_2
+        shapes.append((rnd.randint(3, 9), rnd.randint(10, 14)))
+    for _ in range(6 * k):            # reaction ids straddle 100
+        ns = rnd.randint(60, 98)
+        shapes.append((ns, rnd.randint(100 - ns + 1, 100 - ns + 12)))
+    for _ in range(2 * k):            # >= 100 species
+        shapes.append((rnd.randint(100, 112), rnd.randint(3, 12)))
+    for _ in range(2 * k):            # just below 100
+        ns = rnd.randint(60, 90)
+        shapes.append((ns, 99 - ns))
+    nets = []
+    for ns, nr in shapes:
+        net = sized_net(rnd, ns, nr)
+        if rnd.random() < 0.25:
+            net.update({key: val for key, val in query_plan(rnd).items() if key in ("views", "opts")})
+        nets.append(net)
+    return nets
+
+
+def rare_net(rnd):
+    """Small networks of unusual but legal shape, queried in unusual ways."""
+    ns = rnd.randint(1, 7)
+    sp = label_pool(rnd, ns)
+    nr = rnd.randint(1, 7)
+    rxns = []
+    cf = lambda: rnd.choice([1, 1, 2, 3])
+    while len(rxns) < nr:
+        c = rnd.random()
+        if c < 0.15:                                   # catalyst / species on both sides with equal or unequal counts
+            s, t = rnd.choice(sp), rnd.choice(sp)
+            r0 = rx([(s, cf())] + ([(t, 1)] if t != s else []), [(s, cf())])
+        elif c < 0.25 and rxns:                        # exact duplicate, possibly under another rule
+            b0 = rnd.choice(rxns)
+            r0 = rx([tuple(x) for x in b0["r"]], [tuple(x) for x in b0["p"]])
+        elif c < 0.35 and rxns:
+            b0 = rnd.choice(rxns)
+            r0 = rx([tuple(x) for x in b0["p"]], [tuple(x) for x in b0["r"]])
+        elif c < 0.45:
+            r0 = rx([], [(rnd.choice(sp), cf())]) if rnd.random() < 0.5 else rx([(rnd.choice(sp), cf())], [])
+        else:
+            r0 = rx([(s, cf()) for s in rnd.sample(sp, rnd.randint(0, min(3, ns)))], [(s, cf()) for s in rnd.sample(sp, rnd.randint(0, min(3, ns)))])
+        if not r0["r"] and not r0["p"]:
+            continue
+        r0["rule"] = rnd.choice([None, None, "r", "", "10", "9", "2", "A", "r_1", "\u03b2", "R 1", "b"])
+        ids = {x["eid"] for x in rxns}
+        r0["eid"] = rnd.choice([None, None, None] + [i for i in ["10", "9", "2", "r_10", "r_2", "r_1", "A", "S:A", "R:r_1", "", "0"] if i not in ids])
+        r0["form"] = rnd.choice(["dict", "list", "pairs", "side", "str"])
+        rxns.append(r0)
+    net = {"rxns": rxns}
+    if rnd.random() < 0.3:
+        net["isolated"] = rnd.sample(["iso", "0", "A", "zz"], rnd.randint(1, 2))
+    net.update(query_plan(rnd))
+    return net
+
+
 def malformed():
     return [{"rxns": []}, {"rxns": [], "isolated": ["A"]}]
 
@@ -834,15 +1616,38 @@ def setup(ctx):
     ctx.assumptions = [
         "inputs are CRNHyperGraph stores built through add_rxn / remove_species / remove_rxn (species labels and rules are plain strings)",
         "'reported conservative / consistent' means the verdict is True; None where no witness exists does not contradict the property (DESIGN 5a)",
-        "the column order of S and the None-versus-False choice of the decision logic are recorded against the model but not gated",
+        "the None-versus-False choice of the decision logic is recorded against the model but not gated",
+        "the row / column order of S is gated against the model of build_S (theorem buildS_orders): the returned reaction labels are the "
+        "rule names, so a flux vector can only be read through the column order (store's edge order = order of the store's own "
+        "incidence_matrix, stably regrouped by rule label); a divergence is a failing input when a returned right-kernel / T-semiflow "
+        "vector does not annihilate the store's matrix in that order, otherwise it is reported without failing input",
+        "session stream: the store is edited only through add_rxn / remove_rxn / remove_species / merge / copy and by changing, in place, "
+        "the coefficient of a species that already is on that side of a reaction or the rule label of a reaction (the store invariant of C15 is kept); "
+        "the specification side (store dump -> exact certificates -> Lean checkers) is recomputed per state and never sees the history",
+        "non-default tolerances are kept within 1e-13..1e-8 (rank / null space), 1e-8..1e-7 (conservativity margin) and < 1 (consistency margin, "
+        "the LP bounds v >= 1): for the tiny integer matrices generated here the property's answers do not depend on them",
     ]
     ctx.gen_rule = ("regression corpus; ALL single reactions over species A,B,C with coefficients in {0,1,2} (728); unordered pairs of such "
                     "reactions (all 265356 in thorough, a seeded sample of 4000 ordered pairs in quick); textbook families "
                     "(irreversible/reversible chains, cycles, open systems with source/sink, Michaelis-Menten, Brusselator, Lotka-Volterra, "
                     "scaled variants); random networks with <=7 species, <=6 reactions, coefficients <=3 (reversed and repeated reactions, "
                     "catalysts, sources/sinks, rules from a small alphabet incl. '' and None, explicit ids that reorder columns, isolated "
-                    "species, labels whose string order differs from numeric order); a two-case malformed stream (no reactions). GATES: " + GATES)
-    ctx.nontrivial_rule = "distinct stored network (species + reactions with ids and rules) with at least one reaction and certified rank >= 1"
+                    "species, labels whose string order differs from numeric order); a two-case malformed stream (no reactions); "
+                    "SESSIONS (350 quick / 3500 thorough): a tiny or random base network is analysed, then 1-4 times edited in place on the SAME "
+                    "object (remove_species with/without pruning, remove_rxn + add_rxn under the same id with reversed / rescaled / other sides, "
+                    "in-place coefficient set / incr, rule relabelling, add, remove, merge, copy and continue on the copy / switch back, a new object "
+                    "after releasing the old one, no edit) and analysed again after every edit with every anchored entry point, in a per-state "
+                    "random query order, optionally after repeated warm-up queries, with the exported NetworkX view either rebuilt or refilled "
+                    "into one reused DiGraph object; SIZED (170 quick / 1360 thorough): 1-112 species, 1-28 reactions built from chains / reversible "
+                    "chains / cycles / open ends / sparse random reactions with coefficients <= 3, sizes chosen so that the integer-id view has "
+                    ">= 10 and >= 100 nodes and its reaction ids straddle 10 / 100, >= 10 generated ids (r_10 < r_2), numeric-string ids; "
+                    "RARE (600 quick / 6000 thorough): <= 7 species / <= 7 reactions with labels of unusual shape (digits only, blanks, non-ASCII, "
+                    "labels that look like node / edge ids), numeric-looking and empty rules, explicit ids incl. '' and '10' / '9', catalysts, "
+                    "duplicates, every input form of add_rxn (dict, label list, pairs, RXNSide, reaction string), random query order, and for a "
+                    "share of the cases build_S on NetworkX views made with non-default options (integer ids, other / no prefixes, without isolated "
+                    "species, kind-only or bipartite-only node attributes) and a second round of queries with non-default tolerances. GATES: " + GATES)
+    ctx.nontrivial_rule = ("distinct stored network (species + reactions with ids and rules) with at least one reaction and certified rank >= 1; "
+                           "a session state is identified by the whole history (base network, edits, query plan) that led to it")
 
 
 def run(ctx):
@@ -855,7 +1660,8 @@ def run(ctx):
             os.environ.setdefault(var, "1")
         pool()
         reg = load_regress()
-        run_nets(ctx, [c["net"] for c in reg], "regress")
+        run_nets(ctx, [c["net"] for c in reg if "steps" not in c], "regress")
+        run_sessions(ctx, [{k: c[k] for k in ("net", "first", "steps", "reuse_view") if k in c} for c in reg if "steps" in c], "regress")
         ctx.count("regress_cases", len(reg))
         run_nets(ctx, malformed(), "malformed")
         rs = exhaustive_reactions()
@@ -872,8 +1678,15 @@ def run(ctx):
         run_nets(ctx, textbook(ctx.rnd), "textbook")
         nrand = 4000 if ctx.quick else 40000
         run_nets(ctx, [random_net(ctx.rnd) for _ in range(nrand)], "random")
+        # -- one store object analysed, edited in place, analysed again (hidden state between calls)
+        run_sessions(ctx, [random_session(ctx.rnd) for _ in range(350 if ctx.quick else 3500)], "session")
+        # -- many species / reactions: >= 10 and >= 100 nodes in the integer-id view, ids whose string order is not numeric
+        run_nets(ctx, sized_population(ctx.rnd, ctx.quick), "sized")
+        # -- rare but legal shapes, input forms, NetworkX view variants, query orders, non-default tolerances
+        run_nets(ctx, [rare_net(ctx.rnd) for _ in range(600 if ctx.quick else 6000)], "rare")
     finally:
         close_pool()
+    ctx.violations.sort(key=lambda x: bool(x["no_input"]))     # failing inputs first (stable)
     unknown = [v for v in ctx.violations if not v["classes"]]
     ctx.obligation("correspondence: every verdict of the implementation equals the certified exact value (see GATES)", not unknown,
                    "" if not unknown else unknown[0]["what"])
@@ -881,7 +1694,11 @@ def run(ctx):
 
 def replay(ctx, case):
     setup(ctx)
+    c = case.get("case", case)
     try:
-        run_nets(ctx, [case.get("case", case)["net"]], "replay")
+        if "steps" in c:
+            run_sessions(ctx, [c], "replay")
+        else:
+            run_nets(ctx, [c["net"]], "replay")
     finally:
         close_pool()
